@@ -140,13 +140,11 @@ def lit_equal(a, b):
     if INT_RE.match(a) and INT_RE.match(b):
         return int(a) == int(b)
     if (REAL_RE.match(a) or INT_RE.match(a)) and (REAL_RE.match(b) or INT_RE.match(b)):
-        da, db = Decimal(a.replace(".E", ".0E").rstrip(".") if a.endswith(".") else a.replace(".E", ".0E")), \
-                 Decimal(b.replace(".E", ".0E").rstrip(".") if b.endswith(".") else b.replace(".E", ".0E"))
-        if da == db:
-            return True
-        if da == 0 or db == 0:
-            return False
-        return abs(da - db) <= abs(da) * Decimal("1e-14")
+        import decimal
+        ctx = decimal.Context(prec=15, rounding=decimal.ROUND_HALF_EVEN)
+        norm = lambda s: ctx.create_decimal(s.replace(".E", ".0E").rstrip(".") if s.endswith(".") else s.replace(".E", ".0E"))
+        da, db = norm(a), norm(b)          # both rounded to 15 significant digits
+        return da == db
     return False
 
 
